@@ -84,6 +84,37 @@ def _run_shard(path: Path, timeout: int):
     return p.returncode, p.stdout, p.stderr, time.time() - t0
 
 
+class Neutral(str):
+    """Stands for "the model agrees" where the model cannot be evaluated (it does not build, or a
+    case file is rejected): with VERIF_TOLERATE_MODEL=1 [eval_cases] records the failure in
+    MODEL_ERRORS — the pipeline reports it as a broken tie — and returns these, so that the direct
+    oracles of a suite still run and their findings are not lost."""
+
+    def strip(self, *a):
+        return self
+
+    def split(self, *a, **k):
+        return [self]
+
+    def __eq__(self, o):
+        return True
+
+    def __ne__(self, o):
+        return False
+
+    def __hash__(self):
+        return 0
+
+    def __contains__(self, x):
+        return False
+
+    def __int__(self):
+        return -1
+
+
+MODEL_ERRORS: list[str] = []
+
+
 def eval_cases(name: str, preamble: str, cases: list[str], shard: int = 150,
                timeout: int = 900, jobs: int = 12) -> list[str]:
     """Evaluate each Gallina term of `cases` with vm_compute; returns one printed
@@ -107,6 +138,9 @@ def eval_cases(name: str, preamble: str, cases: list[str], shard: int = 150,
         results = list(ex.map(lambda p: _run_shard(p, timeout), files))
     for path, (rc, so, se, _dt) in zip(files, results):
         if rc != 0:
+            if os.environ.get("VERIF_TOLERATE_MODEL"):
+                MODEL_ERRORS.append(f"{name}: coqc failed on {path.name} (rc={rc}): {se[-1200:]}")
+                return [Neutral("true") for _ in cases]
             raise RuntimeError(f"coqc failed on {path} (rc={rc}):\n{se[-3000:]}")
         # split the output into one chunk per "Eval": chunks start with "     = "
         chunks: list[str] = []
@@ -128,6 +162,9 @@ def eval_cases(name: str, preamble: str, cases: list[str], shard: int = 150,
             cleaned.append(ch[:i] if i >= 0 else ch)
         out.extend(cleaned)
     if len(out) != len(cases):
+        if os.environ.get("VERIF_TOLERATE_MODEL"):
+            MODEL_ERRORS.append(f"{name}: expected {len(cases)} results, got {len(out)}")
+            return [Neutral("true") for _ in cases]
         raise RuntimeError(f"{name}: expected {len(cases)} results, got {len(out)}")
     return out
 
